@@ -96,9 +96,12 @@ BIND = {
         'self.invoke_request': ('proc', (R, 'Router.invoke_request'), 'invoke'),
     },
     (R, 'Router.invoke_request'): {
-        'handle_request': ('opaque', 'handle', 'handle_ret'),
+        # local aliases (`handle_request = self.handle_request`, `notify = registry.notify`) are resolved before the
+        # lookup, so these keys are the aliased expressions, not the names of the locals
+        'self.handle_request': ('opaque', 'handle', 'handle_ret'),
+        'self.orig_handle_request': ('opaque', 'handle', 'handle_ret'),
         'request._process_response_callbacks': ('proc', (Q, 'CallbackMethodsMixin._process_response_callbacks'), 'respcb'),
-        'notify': ('opaque', 'newresp', None),
+        'self.registry.notify': ('opaque', 'newresp', None),
         'self.finish_request': ('proc', (R, 'Router.finish_request'), 'finish'),
     },
     (R, 'Router.finish_request'): {
@@ -237,6 +240,7 @@ class Translator:
         self._line = None       # first line of the statement being translated
         self.opaque = {}        # key -> lines of statements that contain an opaque (may-raise) call
         self.inlined = set()    # generator context managers translated inline
+        self._aliases = {}
 
     # -- plumbing
     def mod(self, rel):
@@ -256,6 +260,56 @@ class Translator:
 
     def bad(self, key, node, what):
         self.problems.append('translator: %s:%s line %s: %s' % (key[0], key[1], getattr(node, 'lineno', '?'), what))
+
+    # -- local aliases: `x = <name/attribute chain>` (every assignment to x in the function of that form)
+    def aliases(self, key):
+        if key not in self._aliases:
+            amap = {}
+            fn = None
+            try:
+                fn = self.mod(key[0]).find(key[1])
+            except (OSError, SyntaxError):
+                pass
+            if fn is not None:
+                for n in self.own_nodes(fn):
+                    if isinstance(n, ast.Assign) and len(n.targets) == 1 and isinstance(n.targets[0], ast.Name):
+                        amap.setdefault(n.targets[0].id, []).append(n.value)
+                    elif isinstance(n, (ast.For, ast.AugAssign, ast.With, ast.NamedExpr, ast.ExceptHandler)):
+                        for t in ast.walk(n):
+                            if isinstance(t, ast.Name) and isinstance(t.ctx, ast.Store):
+                                amap.setdefault(t.id, []).append(None)
+                    elif isinstance(n, ast.ExceptHandler) and n.name:
+                        amap.setdefault(n.name, []).append(None)
+
+            def chain(v):
+                while isinstance(v, ast.Attribute):
+                    v = v.value
+                return isinstance(v, ast.Name)
+            self._aliases[key] = {k: [ast.unparse(v) for v in vs] for k, vs in amap.items()
+                                  if all(v is not None and chain(v) for v in vs)}
+        return self._aliases[key]
+
+    def resolve(self, key, fname, depth=0):
+        """the expressions a dotted name may denote once local aliases are substituted"""
+        root, dot, rest = fname.partition('.')
+        al = self.aliases(key).get(root)
+        if not al or depth > 6 or not root.isidentifier():
+            return {fname}
+        out = set()
+        for exp in al:
+            out |= self.resolve(key, exp + dot + rest, depth + 1)
+        return out
+
+    def binding(self, key, fname):
+        tab = BIND.get(key, {})
+        if fname in tab:
+            return tab[fname]
+        bs = {tab.get(c) for c in self.resolve(key, fname)}
+        if len(bs) == 1:
+            return bs.pop()
+        if bs - {None}:
+            self.problems.append('translator: %s:%s: %s may denote differently bound expressions' % (key[0], key[1], fname))
+        return None
 
     # -- procedures
     def proc(self, key):
@@ -439,7 +493,7 @@ class Translator:
             self.bad(key, st, 'with over a non-call expression %s' % ast.unparse(ce))
             return Seq(('Call',), inner)
         fname = ast.unparse(ce.func)
-        b = BIND.get(key, {}).get(fname)
+        b = self.binding(key, fname)
         args = Seq(*[self.expr(key, a) for a in list(ce.args) + [k.value for k in ce.keywords]])
         if b is None or b[0] not in ('class-cm', 'proc-cm', 'gen-cm'):
             self.bad(key, st, 'unknown context manager %s' % fname)
@@ -513,7 +567,7 @@ class Translator:
             return ('Call',)
         if (fname, len(e.args)) in PURE:
             return ('Skip',)
-        b = BIND.get(key, {}).get(fname)
+        b = self.binding(key, fname)
         if b is not None:
             if b[0] == 'proc':
                 body = self.proc(b[1])
@@ -521,7 +575,7 @@ class Translator:
             if b[0] == 'ctor':
                 return self.ctor(b[1])
             if b[0] == 'opaque':
-                if fname == 'notify':
+                if b[1] == 'newresp':
                     # only the NewResponse notification is marked
                     a0 = e.args[0] if e.args else None
                     if not (isinstance(a0, ast.Call) and ast.unparse(a0.func) == 'NewResponse'):
@@ -529,12 +583,13 @@ class Translator:
                 return Seq(('Mark', b[1]), ('Call',), ('Mark', b[2]) if b[2] else ('Skip',))
             self.bad(key, e, '%s is bound as a context manager but called directly' % fname)
             return ('Call',)
-        last = fname.split('.')[-1].split('[')[0]
-        recv = fname.rsplit('.', 1)[0] if '.' in fname else ''
-        if 'manager' in fname.split('.')[:-1] or fname.startswith('manager'):
-            self.bad(key, e, 'unrecognised use of the thread-local manager: %s' % fname)
-        elif last in SUSPICIOUS and recv not in BENIGN_RECV:
-            self.bad(key, e, 'scope-like call %s is not bound to a definition' % fname)
+        for fname in sorted({fname} | self.resolve(key, fname)):
+            last = fname.split('.')[-1].split('[')[0]
+            recv = fname.rsplit('.', 1)[0] if '.' in fname else ''
+            if 'manager' in fname.split('.')[:-1] or fname.startswith('manager'):
+                self.bad(key, e, 'unrecognised use of the thread-local manager: %s' % fname)
+            elif last in SUSPICIOUS and recv not in BENIGN_RECV:
+                self.bad(key, e, 'scope-like call %s is not bound to a definition' % fname)
         return ('Call',)
 
 
